@@ -38,9 +38,10 @@ Definition tx_tr (ops : list (list oracle * rop)) : list dev :=
   match tx_run ops with Ok (_, tr) => tr | _ => [] end.
 
 (** an event without the publish: (0, offset, 0) forward, (1, from, to) jump, (2, end, 0) subscribe,
-    (3, 0, 0) resume marker *)
+    (3, c0, 0) resume marker, (4, r, |window|) end marker *)
 Definition kshort (a : kev) : N * N * N :=
-  match a with KFwd off _ => (0, off, 0) | KJump f t => (1, f, t) | KSub e => (2, e, 0) | KRes => (3, 0, 0) end.
+  match a with KFwd off _ => (0, off, 0) | KJump f t => (1, f, t) | KSub e => (2, e, 0) | KRes _ c0 => (3, c0, 0)
+             | KEnd _ r w => (4, r, lenN w) end.
 Definition fwds (from n : nat) : list (N * N * N) := map (fun i => (0, N.of_nat i, 0)) (seq from n).
 
 (** up to the rollover: a paused by its full window *)
